@@ -1,13 +1,14 @@
 #!/bin/bash
+R=${REPO:-/repo}   # REPO=<scratch worktree> lets several of these run side by side; the default is /repo itself
 # Re-runs every stored seeded change against the checks of the property it breaks; prints MISSED for any
 # that the property's own check no longer reports. (Applies each patch to /repo and reverts it.)
 cd /verif
 miss=0
 for d in seeded/*/; do
   id=$(basename $d); prop=${id%-*}
-  git -C /repo apply /verif/$d/patch.diff 2>/dev/null || git -C /repo apply -C1 /verif/$d/patch.diff 2>/dev/null || { echo "APPLY-FAILED $id"; continue; }
-  out=$(./bin/tmverif -prop $prop -no-evidence 2>&1)
-  git -C /repo checkout -- .
+  git -C $R apply /verif/$d/patch.diff 2>/dev/null || git -C $R apply -C1 /verif/$d/patch.diff 2>/dev/null || { echo "APPLY-FAILED $id"; continue; }
+  out=$(./bin/tmverif -repo $R -prop $prop -no-evidence 2>&1)
+  git -C $R checkout -- .
   if echo "$out" | grep -q "^VIOLATION property=$prop"; then echo "caught $id: $(echo "$out" | grep -m1 '^  VIOLATION\|^  UNDECIDED\|^  FLOOR' | cut -c1-150)"; else echo "MISSED $id"; miss=1; fi
 done
 exit $miss
